@@ -11,7 +11,7 @@
    time order: t is not in the past and not after a scheduled wake-up.
    The composition with the task executor (coq/Timer/Model.v) is validated by the
    correspondence check, not proved: C05 is `partial` in that sense (DESIGN.md section 10). *)
-From Coq Require Import List NArith Permutation.
+From Coq Require Import List NArith Permutation Lia.
 From DesVerif Require Import Timer.Driver Timer.QueueLemmas Timer.Inv Timer.Exact Timer.Futures Timer.FutureLaws Timer.Model Timer.Compose
   Timer.Frag Timer.E2EInv Timer.E2ELoop Timer.E2EInit Timer.Fresh Timer.ModelCq Timer.OverCq Timer.OverCqProps.
 From DesVerif Require CQueue.Model.
@@ -467,6 +467,29 @@ Theorem C05_woken_through_last_poller : forall polls t k s dr tab,
   handle (fst (fst r)) = Some (match handle s with None => deadline s | Some h => h end).
 Proof. exact woken_through_last_poller. Qed.
 Print Assumptions C05_woken_through_last_poller.
+
+(* ... stated over the poll sequence as a whole: for ANY non-empty sequence of polls before the
+   deadline -- a hand-over chain of any length, also one that returns to a waker that polled the
+   Sleep earlier (A, B, A / A, B, C, A / A, B, A, B: script step 15) -- the stored waker is the one
+   of the last element.  (A rule that compares with a waker cached at registration is refuted by
+   the round trip: coq/Refuted/C05.v C05_waker_cache_never_refreshed_refuted.) *)
+Theorem C05_woken_through_last_poller_of_any_sequence : forall l s dr tab,
+  l <> [] -> Forall (fun p => fst p < deadline s) l ->
+  waker_of (snd (poll_seq true l s dr tab)) (sid s) = Some (snd (last l (0, 0%nat))).
+Proof.
+  intros l s dr tab Hne Hall.
+  destruct (exists_last Hne) as [l' [[t k] El]]. rewrite El in *.
+  rewrite last_last. cbn [snd]. exact (proj1 (woken_through_last_poller l' t k s dr tab Hall)).
+Qed.
+Print Assumptions C05_woken_through_last_poller_of_any_sequence.
+
+Example C05_round_trip_wakes_the_returning_poller : forall s dr tab a b, 2 < deadline s ->
+  waker_of (snd (poll_seq true [(0, a); (1, b); (2, a)] s dr tab)) (sid s) = Some a.
+Proof.
+  intros s dr tab a b H.
+  apply (C05_woken_through_last_poller_of_any_sequence [(0, a); (1, b); (2, a)] s dr tab); [discriminate|].
+  repeat constructor; cbn [fst]; lia.
+Qed.
 
 (* ... spelled out for two wakers of ONE task, in either order (script step 14): wakers are
    numbered so that w / 2 is the task they wake; polled under w0 and then under w1 <> w0 with
